@@ -18,7 +18,7 @@ QUICK_DYN = [("l8c_le", 1, 0, "char"), ("l32u_be", 4, 1, "unsigned char")]
 ALL_DYN = QUICK_DYN + [("l8u_le", 1, 0, "unsigned char"), ("l8i_le", 1, 0, "signed char"), ("l16c_le", 2, 0, "char"), ("l16u_be", 2, 1, "unsigned char"), ("l32c_le", 4, 0, "char"),
                        ("l32i_be", 4, 1, "signed char"), ("l64c_le", 8, 0, "char"), ("l64u_be", 8, 1, "unsigned char"), ("l8c_be", 1, 1, "char"), ("l64i_le", 8, 0, "signed char")]
 ASSUMPTIONS = ["<data> structure contracts: memmove/memcpy/memset are replaced by frame-only contracts (assigns exactly n bytes at dest, returns dest); their content behaviour is CBMC's model in the bounded content contracts",
-               "<data> content clauses are bounded: buffer <= %d bytes (ghost element index, both symbolic)" % CAP]
+               "<data> content clauses are bounded: buffer <= max(%d, prefix + 4) bytes (ghost element index, both symbolic)" % CAP]
 GH = [("unsigned long", "sbv_n")]
 
 
@@ -42,6 +42,7 @@ def contracts(tier):
 def dyn_contracts(u, ID, lw, be, ety):
     out = []
     T = "<%s>" % ID
+    CAPL = max(CAP, lw + 4)  # content bound: at least 4 payload bytes for every prefix width
     MAXV = (1 << (8 * lw)) - 2 if lw < 8 else (1 << 64) - 2
 
     def tgt(name):
@@ -57,6 +58,10 @@ def dyn_contracts(u, ID, lw, be, ety):
 
     def LEN(vw):
         return load(vw.begin, lw, be)
+
+    def FITS(x):
+        """prefix and x payload bytes lie inside the buffer (subtractive: no wrap for 64-bit lengths)"""
+        return "(%d <= sbv_n && (unsigned long)(%s) <= sbv_n - %d)" % (lw, x, lw)
 
     def lenbytes(vw, val):
         return [("length-prefix-byte-%d" % k, "(uint8_t)%s[%d] == SPEC_BYTE((uint64_t)(%s), %d, %d, %d)" % (vw.begin, k, val, lw, be, k)) for k in range(lw)]
@@ -82,22 +87,22 @@ def dyn_contracts(u, ID, lw, be, ety):
     for nm in ("begin", "data"):
         f = tgt(nm)
         p, rec, vw = dview(f)
-        add(f, nm, [OBJ(p, rec)] + vw.wf(), [("payload-in-bounds-or-reported", "%d + (unsigned long)%s <= sbv_n" % (lw, LEN(vw))), ("points-at-payload", "(char *)RET == %s + %d" % (vw.begin, lw))], props={"C13", "C10", "C11"})
+        add(f, nm, [OBJ(p, rec)] + vw.wf(), [("payload-in-bounds-or-reported", FITS(LEN(vw))), ("points-at-payload", "(char *)RET == %s + %d" % (vw.begin, lw))], props={"C13", "C10", "C11"})
     f = tgt("end")
     p, rec, vw = dview(f)
-    add(f, "end", [OBJ(p, rec)] + vw.wf(), [("payload-in-bounds-or-reported", "%d + (unsigned long)%s <= sbv_n" % (lw, LEN(vw))), ("points-past-payload", "(char *)RET == %s + %d + (unsigned long)%s" % (vw.begin, lw, LEN(vw)))], props={"C13", "C10", "C11"})
+    add(f, "end", [OBJ(p, rec)] + vw.wf(), [("payload-in-bounds-or-reported", FITS(LEN(vw))), ("points-past-payload", "(char *)RET == %s + %d + (unsigned long)%s" % (vw.begin, lw, LEN(vw)))], props={"C13", "C10", "C11"})
     f = tgt("at")
     p, rec, vw = dview(f)
     pos = f.p[1]
-    add(f, "operator[]", [OBJ(p, rec)] + vw.wf(), [("pos-below-size-or-reported", "(unsigned long)%s < (unsigned long)%s" % (pos, LEN(vw))), ("payload-in-bounds-or-reported", "%d + (unsigned long)%s <= sbv_n" % (lw, LEN(vw))),
+    add(f, "operator[]", [OBJ(p, rec)] + vw.wf(), [("pos-below-size-or-reported", "(unsigned long)%s < (unsigned long)%s" % (pos, LEN(vw))), ("payload-in-bounds-or-reported", FITS(LEN(vw))),
                                                  ("element-reference", "(char *)RET == %s + %d + (unsigned long)%s" % (vw.begin, lw, pos))], props={"C13", "C10", "C11"})
-    add(f, "operator[]", [OBJ(p, rec)] + vw.wf() + [ASSUME("%d <= sbv_n" % lw), ASSUME("%d + (unsigned long)%s <= sbv_n && (unsigned long)%s < (unsigned long)%s" % (lw, LEN(vw), pos, LEN(vw)))],
+    add(f, "operator[]", [OBJ(p, rec)] + vw.wf() + [ASSUME("%d <= sbv_n" % lw), ASSUME("%s && (unsigned long)%s < (unsigned long)%s" % (FITS(LEN(vw)), pos, LEN(vw)))],
         [("element-reference", "(char *)RET == %s + %d + (unsigned long)%s" % (vw.begin, lw, pos))], mode="N", props={"C10"})
     for nm, where in (("front", "0"), ("back", "(unsigned long)%s - 1")):
         f = tgt(nm)
         p, rec, vw = dview(f)
         w = where if "%s" not in where else where % LEN(vw)
-        add(f, nm, [OBJ(p, rec)] + vw.wf(), [("non-empty-or-reported", "%s != 0" % LEN(vw)), ("payload-in-bounds-or-reported", "%d + (unsigned long)%s <= sbv_n" % (lw, LEN(vw))),
+        add(f, nm, [OBJ(p, rec)] + vw.wf(), [("non-empty-or-reported", "%s != 0" % LEN(vw)), ("payload-in-bounds-or-reported", FITS(LEN(vw))),
                                              ("element-reference", "(char *)RET == %s + %d + %s" % (vw.begin, lw, w))], props={"C13", "C10", "C11"})
     f = tgt("raw")
     p, rec, vw = dview(f)
@@ -108,7 +113,7 @@ def dyn_contracts(u, ID, lw, be, ety):
     f = tgt("resize_di")
     p, rec, vw = dview(f)
     cnt = f.p[1]
-    fits = "%d + (unsigned long)%s <= sbv_n" % (lw, cnt)
+    fits = FITS(cnt)
     add(f, "resize(n,default_init)", [OBJ(p, rec)] + vw.wf(), [("new-size-fits-or-reported", fits)] + lenbytes(vw, cnt), assigns=["%s: __CPROVER_object_upto(%s, %d)" % (fits, vw.begin, lw)], props={"C13", "C01", "C10"})
     add(f, "resize(n,default_init)", [OBJ(p, rec)] + vw.wf() + [ASSUME(fits)], lenbytes(vw, cnt), assigns=["__CPROVER_object_upto(%s, %d)" % (vw.begin, lw)], mode="N", props={"C10", "C13"})
     f = tgt("clear")
@@ -123,10 +128,10 @@ def dyn_contracts(u, ID, lw, be, ety):
     val = f.p[1]
     L0 = "OLD((unsigned long)%s)" % LEN(vw)
     pre = [OBJ(p, rec)] + vw.wf() + [ASSUME("%d <= sbv_n" % lw), ASSUME("(unsigned long)%s < %dUL" % (LEN(vw), MAXV))]
-    add(f, "push_back", pre + [ASSUME("sbv_k < sbv_n && sbv_k + %d < sbv_n" % lw)], [("new-size-fits-or-reported", "%d + (unsigned long)%s + 1 <= sbv_n" % (lw, L0))] + lenbytes(vw, "%s + 1" % L0) +
+    add(f, "push_back", pre + [ASSUME("sbv_k < sbv_n && sbv_k + %d < sbv_n" % lw)], [("new-size-fits-or-reported", FITS("%s + 1" % L0))] + lenbytes(vw, "%s + 1" % L0) +
         [("appended-element", "(uint8_t)%s[%d + (unsigned long)%s] == (uint8_t)%s" % (vw.begin, lw, L0, val)),
          ("existing-elements-unchanged", "SPEC_IMPLIES(sbv_k < %s, (uint8_t)%s[%d + sbv_k] == OLD((uint8_t)%s[%d + sbv_k]))" % (L0, vw.begin, lw, vw.begin, lw))], ghosts=GH + [("unsigned long", "sbv_k")],
-        assigns=["%d <= sbv_n && %d + (unsigned long)%s + 1 <= sbv_n: __CPROVER_object_upto(%s, %d + (unsigned long)%s + 1)" % (lw, lw, LEN(vw), vw.begin, lw, LEN(vw))], props={"C13", "C01", "C10"})
+        assigns=["%s: __CPROVER_object_upto(%s, %d + (unsigned long)%s + 1)" % (FITS("(unsigned long)%s + 1" % LEN(vw)), vw.begin, lw, LEN(vw))], props={"C13", "C01", "C10"})
 
     # ---------- element-moving mutators: structure (unbounded, libc replaced) and content (bounded)
     GK = GH + [("unsigned long", "sbv_p"), ("unsigned long", "sbv_q"), ("unsigned long", "sbv_k"), ("unsigned long", "sbv_j")]
@@ -141,7 +146,7 @@ def dyn_contracts(u, ID, lw, be, ety):
         pre = pre[:3] + [ASSUME("%d <= sbv_n" % lw)] + pre[3:] + pre_extra
         frame = ["__CPROVER_object_upto(%s, sbv_n)" % vw.begin]
         add(f, name + " [structure]", pre, post_struct, assigns=frame, ghosts=GK, props=props, libc=("memmove", "memset"))
-        add(f, name + " [content]", pre + [ASSUME("sbv_n <= %d" % CAP), ASSUME("sbv_k < sbv_n && sbv_j < sbv_n && sbv_k + %d < sbv_n && sbv_j + %d < sbv_n" % (lw, lw))], post_content, assigns=frame, ghosts=GK, props=props, kind="bounded(buffer<=%d)" % CAP, unwind=CAP + 2,
+        add(f, name + " [content]", pre + [ASSUME("sbv_n <= %d" % CAPL), ASSUME("sbv_k < sbv_n && sbv_j < sbv_n && sbv_k + %d < sbv_n && sbv_j + %d < sbv_n" % (lw, lw))], post_content, assigns=frame, ghosts=GK, props=props, kind="bounded(buffer<=%d)" % CAPL, unwind=CAPL + 2,
             backends=["z3", "cvc5", "kissat", "minisat"])
 
     def el(vw, idx, old=False):
@@ -153,7 +158,7 @@ def dyn_contracts(u, ID, lw, be, ety):
     p, rec, vw = dview(f)
     pos = f.p[1]
     L0 = "OLD((unsigned long)%s)" % LEN(vw)
-    both(f, "erase(pos)", [], [("pos-inside-or-reported", "sbv_p < %s" % L0), ("payload-in-bounds-or-reported", "%d + %s <= sbv_n" % (lw, L0))] + lenbytes(vw, "%s - 1" % L0) + [("returns-pos", "RET == OLD(%s)" % pos)],
+    both(f, "erase(pos)", [], [("pos-inside-or-reported", "sbv_p < %s" % L0), ("payload-in-bounds-or-reported", FITS(L0))] + lenbytes(vw, "%s - 1" % L0) + [("returns-pos", "RET == OLD(%s)" % pos)],
          [("prefix-unchanged-before-pos", "SPEC_IMPLIES(sbv_k < sbv_p, %s == %s)" % (el(vw, "sbv_k"), el(vw, "sbv_k", True))),
           ("tail-shifted-left-by-one", "SPEC_IMPLIES(sbv_k >= sbv_p && sbv_k + 1 < %s && sbv_j == sbv_k + 1, %s == %s)" % (L0, el(vw, "sbv_k"), el(vw, "sbv_j", True)))],
          None, iters=[(pos, "sbv_p")])
@@ -162,21 +167,21 @@ def dyn_contracts(u, ID, lw, be, ety):
     p, rec, vw = dview(f)
     first, last = f.p[1], f.p[2]
     both(f, "erase(first,last)", [ASSUME("sbv_p <= sbv_q")],
-         [("range-inside-or-reported", "sbv_q <= %s" % L0), ("payload-in-bounds-or-reported", "%d + %s <= sbv_n" % (lw, L0))] + lenbytes(vw, "%s - (sbv_q - sbv_p)" % L0) + [("returns-first", "RET == OLD(%s)" % first)],
+         [("range-inside-or-reported", "sbv_q <= %s" % L0), ("payload-in-bounds-or-reported", FITS(L0))] + lenbytes(vw, "%s - (sbv_q - sbv_p)" % L0) + [("returns-first", "RET == OLD(%s)" % first)],
          [("prefix-unchanged-before-first", "SPEC_IMPLIES(sbv_k < sbv_p, %s == %s)" % (el(vw, "sbv_k"), el(vw, "sbv_k", True))),
           ("tail-shifted-left", "SPEC_IMPLIES(sbv_k >= sbv_p && sbv_k + (sbv_q - sbv_p) < %s && sbv_j == sbv_k + (sbv_q - sbv_p), %s == %s)" % (L0, el(vw, "sbv_k"), el(vw, "sbv_j", True)))],
          None, iters=[(first, "sbv_p"), (last, "sbv_q")])
     add(f, "erase(first,end()) is valid", [OBJ(p, rec)] + vw.wf() + [ASSUME("%d <= sbv_n" % lw), INRANGE(first, "((%s *)(%s + %d))" % (ety, vw.begin, lw), "((%s *)(%s + sbv_n))" % (ety, vw.begin), "sbv_p"),
                                                                      INRANGE(last, "((%s *)(%s + %d))" % (ety, vw.begin, lw), "((%s *)(%s + sbv_n))" % (ety, vw.begin), "sbv_q"),
-                                                                     ASSUME("%d + (unsigned long)%s <= sbv_n && sbv_p <= sbv_q && sbv_q == (unsigned long)%s && sbv_n <= %d" % (lw, LEN(vw), LEN(vw), lw + 4))],
-        lenbytes(vw, "sbv_p"), assigns=["__CPROVER_object_upto(%s, sbv_n)" % vw.begin], mode="N", ghosts=GK, props={"C13", "C10"}, kind="bounded(buffer<=%d)" % (lw + 4), unwind=CAP + 2, backends=["z3", "kissat", "cvc5", "minisat"])
+                                                                     ASSUME("%s && sbv_p <= sbv_q && sbv_q == (unsigned long)%s && sbv_n <= %d" % (FITS(LEN(vw)), LEN(vw), lw + 4))],
+        lenbytes(vw, "sbv_p"), assigns=["__CPROVER_object_upto(%s, sbv_n)" % vw.begin], mode="N", ghosts=GK, props={"C13", "C10"}, kind="bounded(buffer<=%d)" % (lw + 4), unwind=CAPL + 2, backends=["z3", "kissat", "cvc5", "minisat"])
     # insert(pos, value)
     f = tgt("insert")
     p, rec, vw = dview(f)
     pos, val = f.p[1], f.p[2]
     notfull = [ASSUME("(unsigned long)%s < %dUL" % (LEN(vw), MAXV))]
     both(f, "insert(pos,value)", notfull,
-         [("pos-inside-or-reported", "sbv_p <= %s" % L0), ("new-size-fits-or-reported", "%d + %s + 1 <= sbv_n" % (lw, L0))] + lenbytes(vw, "%s + 1" % L0) + [("returns-pos", "RET == OLD(%s)" % pos)],
+         [("pos-inside-or-reported", "sbv_p <= %s" % L0), ("new-size-fits-or-reported", FITS("%s + 1" % L0))] + lenbytes(vw, "%s + 1" % L0) + [("returns-pos", "RET == OLD(%s)" % pos)],
          [("prefix-unchanged-before-pos", "SPEC_IMPLIES(sbv_k < sbv_p, %s == %s)" % (el(vw, "sbv_k"), el(vw, "sbv_k", True))),
           ("inserted-element", "SPEC_IMPLIES(sbv_k == sbv_p, %s == (uint8_t)%s)" % (el(vw, "sbv_k"), val)),
           ("tail-shifted-right-by-one", "SPEC_IMPLIES(sbv_k > sbv_p && sbv_k <= %s && sbv_j + 1 == sbv_k, %s == %s)" % (L0, el(vw, "sbv_k"), el(vw, "sbv_j", True)))],
@@ -185,9 +190,9 @@ def dyn_contracts(u, ID, lw, be, ety):
     f = tgt("insert_n")
     p, rec, vw = dview(f)
     pos, cnt, val = f.p[1], f.p[2], f.p[3]
-    room = [ASSUME("(unsigned long)%s + (unsigned long)%s <= %dUL" % (LEN(vw), cnt, MAXV))]
+    room = [ASSUME("(unsigned long)%s <= %dUL && (unsigned long)%s <= %dUL - (unsigned long)%s" % (LEN(vw), MAXV, cnt, MAXV, LEN(vw)))]
     both(f, "insert(pos,count,value)", room,
-         [("pos-inside-or-reported", "sbv_p <= %s" % L0), ("new-size-fits-or-reported", "%d + %s + (unsigned long)%s <= sbv_n" % (lw, L0, cnt))] + lenbytes(vw, "%s + (unsigned long)%s" % (L0, cnt)) + [("returns-pos", "RET == OLD(%s)" % pos)],
+         [("pos-inside-or-reported", "sbv_p <= %s" % L0), ("new-size-fits-or-reported", FITS("%s + (unsigned long)%s" % (L0, cnt)))] + lenbytes(vw, "%s + (unsigned long)%s" % (L0, cnt)) + [("returns-pos", "RET == OLD(%s)" % pos)],
          [("prefix-unchanged-before-pos", "SPEC_IMPLIES(sbv_k < sbv_p, %s == %s)" % (el(vw, "sbv_k"), el(vw, "sbv_k", True))),
           ("inserted-copies", "SPEC_IMPLIES(sbv_k >= sbv_p && sbv_k < sbv_p + (unsigned long)%s, %s == (uint8_t)%s)" % (cnt, el(vw, "sbv_k"), val)),
           ("tail-shifted-right-by-count", "SPEC_IMPLIES(sbv_k >= sbv_p + (unsigned long)%s && sbv_k < %s + (unsigned long)%s && sbv_j + (unsigned long)%s == sbv_k, %s == %s)" % (cnt, L0, cnt, cnt, el(vw, "sbv_k"), el(vw, "sbv_j", True)))],
@@ -212,7 +217,7 @@ def dyn_contracts(u, ID, lw, be, ety):
         pre = [OBJ(p, rec)] + vw.wf() + [ASSUME("%d <= sbv_n" % lw), INRANGE(pos, "((%s *)(%s + %d))" % (ety, vw.begin, lw), "((%s *)(%s + sbv_n))" % (ety, vw.begin), "sbv_p"), ASSUME("%d + sbv_p <= sbv_n" % lw)] + srcpre + \
               [ASSUME("sbv_m == 2 && (unsigned long)%s == 2 && sbv_p == 1" % LEN(vw)), ASSUME("sbv_n == %d" % (lw + 6)), ASSUME("sbv_k < sbv_n && sbv_j < sbv_n && sbv_k + %d < sbv_n && sbv_j + %d < sbv_n" % (lw, lw))]
         sidx = "((sbv_k >= sbv_p && sbv_k - sbv_p < sbv_m) ? sbv_k - sbv_p : 0)"
-        post = [("pos-inside-or-reported", "sbv_p <= %s" % L0), ("new-size-fits-or-reported", "%d + %s + sbv_m <= sbv_n" % (lw, L0))] + lenbytes(vw, "%s + sbv_m" % L0) + [("returns-pos", "RET == OLD(%s)" % pos),
+        post = [("pos-inside-or-reported", "sbv_p <= %s" % L0), ("new-size-fits-or-reported", FITS("%s + sbv_m" % L0))] + lenbytes(vw, "%s + sbv_m" % L0) + [("returns-pos", "RET == OLD(%s)" % pos),
                 ("prefix-unchanged-before-pos", "SPEC_IMPLIES(sbv_k < sbv_p, %s == %s)" % (el(vw, "sbv_k"), el(vw, "sbv_k", True))),
                 ("inserted-range-in-order", "SPEC_IMPLIES(sbv_k >= sbv_p && sbv_k < sbv_p + sbv_m, %s == (uint8_t)%s[%s])" % (el(vw, "sbv_k"), src, sidx)),
                 ("tail-shifted-right-by-range-length", "SPEC_IMPLIES(sbv_k >= sbv_p + sbv_m && sbv_k < %s + sbv_m && sbv_j + sbv_m == sbv_k, %s == %s)" % (L0, el(vw, "sbv_k"), el(vw, "sbv_j", True)))]
@@ -222,32 +227,32 @@ def dyn_contracts(u, ID, lw, be, ety):
     f = tgt("assign_range_it")
     p, rec, vw = dview(f)
     first, last = f.p[1], f.p[2]
-    pre = [OBJ(p, rec)] + vw.wf() + [BUF(first, "sbv_m", cast=ety + " *"), SET(last, "%s + sbv_m" % first), ASSUME("sbv_m >= 1 && %d + sbv_m <= sbv_n && sbv_m <= %dUL" % (lw, MAXV)), ASSUME("sbv_n <= %d" % CAP), ASSUME("sbv_k < sbv_m")]
+    pre = [OBJ(p, rec)] + vw.wf() + [BUF(first, "sbv_m", cast=ety + " *"), SET(last, "%s + sbv_m" % first), ASSUME("sbv_m >= 1 && %d + sbv_m <= sbv_n && sbv_m <= %dUL" % (lw, MAXV)), ASSUME("sbv_n <= %d" % CAPL), ASSUME("sbv_k < sbv_m")]
     add(f, "assign(first,last) [content]", pre, lenbytes(vw, "sbv_m") + [("elements-are-the-range", "%s == (uint8_t)%s[sbv_k]" % (el(vw, "sbv_k"), first))], assigns=["__CPROVER_object_upto(%s, sbv_n)" % vw.begin], mode="N", ghosts=GM,
-        props={"C13", "C10"}, kind="bounded(buffer<=%d)" % CAP, unwind=CAP + 2, backends=["z3", "cvc5", "kissat", "minisat"])
+        props={"C13", "C10"}, kind="bounded(buffer<=%d)" % CAPL, unwind=CAPL + 2, backends=["z3", "cvc5", "kissat", "minisat"])
     # assign_string(const char*)
     f = tgt("assign_string")
     p, rec, vw = dview(f)
     sp = f.p[1]
     strl = "(" + " ".join("(%d < sbv_m && %s[%d] == 0) ? %dUL :" % (i, sp, i, i) for i in range(5)) + " 5UL)"
-    pre = [OBJ(p, rec)] + vw.wf() + [BUF(sp, "sbv_m"), ASSUME("sbv_m >= 1 && sbv_m <= 5"), ASSUME("%s[sbv_m - 1] == 0" % sp), ASSUME("%d <= sbv_n && sbv_n <= %d" % (lw, CAP)), ASSUME("sbv_k < 4")]
-    add(f, "assign_string [content]", pre, [("new-size-fits-or-reported", "%d + %s <= sbv_n" % (lw, strl))] + lenbytes(vw, strl) + [("elements-are-the-string", "SPEC_IMPLIES(sbv_k < %s, %s == (uint8_t)%s[sbv_k < sbv_m ? sbv_k : 0])" % (strl, el(vw, "sbv_k"), sp))],
-        assigns=["__CPROVER_object_upto(%s, sbv_n)" % vw.begin], ghosts=GM, props={"C13", "C10"}, kind="bounded(buffer<=%d,string<=4)" % CAP, unwind=CAP + 2, backends=["z3", "cvc5", "kissat", "minisat"])
+    pre = [OBJ(p, rec)] + vw.wf() + [BUF(sp, "sbv_m"), ASSUME("sbv_m >= 1 && sbv_m <= 5"), ASSUME("%s[sbv_m - 1] == 0" % sp), ASSUME("%d <= sbv_n && sbv_n <= %d" % (lw, CAPL)), ASSUME("sbv_k < 4")]
+    add(f, "assign_string [content]", pre, [("new-size-fits-or-reported", FITS(strl))] + lenbytes(vw, strl) + [("elements-are-the-string", "SPEC_IMPLIES(sbv_k < %s, %s == (uint8_t)%s[sbv_k < sbv_m ? sbv_k : 0])" % (strl, el(vw, "sbv_k"), sp))],
+        assigns=["__CPROVER_object_upto(%s, sbv_n)" % vw.begin], ghosts=GM, props={"C13", "C10"}, kind="bounded(buffer<=%d,string<=4)" % CAPL, unwind=CAPL + 2, backends=["z3", "cvc5", "kissat", "minisat"])
     # the same operation without the "new length is representable" assumption: capacity overflow must be reported, not truncated
-    if lw == 1:
+    if True:
         f = tgt("insert_n")
         p, rec, vw = dview(f)
         pos, cnt, val = f.p[1], f.p[2], f.p[3]
         pre = [OBJ(p, rec)] + vw.wf() + [ASSUME("%d <= sbv_n" % lw), INRANGE(pos, "((%s *)(%s + %d))" % (ety, vw.begin, lw), "((%s *)(%s + sbv_n))" % (ety, vw.begin), "sbv_p"), ASSUME("%d + sbv_p <= sbv_n" % lw)]
         add(f, "insert(pos,count,value) [structure, any count]", pre,
-            [("pos-inside-or-reported", "sbv_p <= %s" % L0), ("new-size-representable-and-fits-or-reported", "%s + (unsigned long)%s <= %dUL && %d + %s + (unsigned long)%s <= sbv_n" % (L0, cnt, MAXV, lw, L0, cnt))],
+            [("pos-inside-or-reported", "sbv_p <= %s" % L0), ("new-size-representable-and-fits-or-reported", "%s <= %dUL && (unsigned long)%s <= %dUL - %s && %s" % (L0, MAXV, cnt, MAXV, L0, FITS("%s + (unsigned long)%s" % (L0, cnt))))],
             assigns=["__CPROVER_object_upto(%s, sbv_n)" % vw.begin], ghosts=GK, props={"C13", "C10"}, libc=("memmove", "memset"))
     # assign(count, value)
     f = tgt("assign_n")
     p, rec, vw = dview(f)
     cnt, val = f.p[1], f.p[2]
     both(f, "assign(count,value)", [],
-         [("new-size-fits-or-reported", "%d + (unsigned long)%s <= sbv_n" % (lw, cnt))] + lenbytes(vw, cnt),
+         [("new-size-fits-or-reported", FITS(cnt))] + lenbytes(vw, cnt),
          [("all-elements-are-value", "SPEC_IMPLIES(sbv_k < (unsigned long)%s, %s == (uint8_t)%s)" % (cnt, el(vw, "sbv_k"), val))], None)
     # resize(count) / resize(count, value): loops written in sbepp itself
     for nm, hasv in (("resize", False), ("resize_v", True)):
@@ -255,12 +260,12 @@ def dyn_contracts(u, ID, lw, be, ety):
         p, rec, vw = dview(f)
         cnt = f.p[1]
         val = f.p[2] if hasv else "0"
-        pre = [OBJ(p, rec)] + vw.wf() + [ASSUME("%d <= sbv_n" % lw), ASSUME("sbv_n <= %d" % CAP), ASSUME("sbv_k < sbv_n && sbv_k + %d < sbv_n" % lw)]
+        pre = [OBJ(p, rec)] + vw.wf() + [ASSUME("%d <= sbv_n" % lw), ASSUME("sbv_n <= %d" % CAPL), ASSUME("sbv_k < sbv_n && sbv_k + %d < sbv_n" % lw)]
         add(f, "resize(count%s) [content]" % (",value" if hasv else ""), pre,
-            [("new-size-fits-or-reported", "%d + (unsigned long)%s <= sbv_n" % (lw, cnt))] + lenbytes(vw, cnt) +
+            [("new-size-fits-or-reported", FITS(cnt))] + lenbytes(vw, cnt) +
             [("kept-elements-unchanged", "SPEC_IMPLIES(sbv_k < %s && sbv_k < (unsigned long)%s, %s == %s)" % (L0, cnt, el(vw, "sbv_k"), el(vw, "sbv_k", True))),
              ("new-elements-initialised", "SPEC_IMPLIES(sbv_k >= %s && sbv_k < (unsigned long)%s, %s == (uint8_t)%s)" % (L0, cnt, el(vw, "sbv_k"), val))],
-            assigns=["__CPROVER_object_upto(%s, sbv_n)" % vw.begin], ghosts=GK, props={"C13", "C10"}, kind="bounded(buffer<=%d)" % CAP, unwind=CAP + 2, backends=["kissat", "minisat", "z3", "cvc5"])
+            assigns=["__CPROVER_object_upto(%s, sbv_n)" % vw.begin], ghosts=GK, props={"C13", "C10"}, kind="bounded(buffer<=%d)" % CAPL, unwind=CAPL + 2, backends=["kissat", "minisat", "z3", "cvc5"])
     return out
 
 
